@@ -305,9 +305,11 @@ def definedIIx (regs : Regs) (m : Mem) (op : BitVec 3) (r : BitVec 4) (as : BitV
   if op = 7 then false                         -- U2: 0x1380..0x13ff is not an instruction
   else if op = 6 then ¬ bw ∧ as = 0 ∧ r = 0 ∧ sp &&& 1 = 0    -- U2: RETI is the single word 0x1300; U4: stack aligned
   else if op = 4 then
-    -- U8: PUSH with SP as operand register (operation text vs. Figure 3-5); U9: PUSH.B high byte
+    -- U9: PUSH.B high byte.  (U8, "PUSH with SP as operand register", is no longer excluded: the operation text
+    -- "SP - 2 -> SP, src -> @SP" is taken as the definition for SP, x(SP), @SP and @SP+ as for every other register:
+    -- the source is evaluated with the decremented SP.)
     let s := source (setReg regs SP (sp - 2)) m r as bw
-    r ≠ SP ∧ ¬ bw ∧ getReg s.regs SP &&& 1 = 0 ∧ ¬ oddWord bw s
+    ¬ bw ∧ getReg s.regs SP &&& 1 = 0 ∧ ¬ oddWord bw s
   else if op = 5 then
     let s := source regs m r as false
     ¬ bw ∧ getReg s.regs SP &&& 1 = 0 ∧ ¬ oddWord false s          -- U3: no CALL.B
@@ -331,7 +333,8 @@ def definedII (regs : Regs) (m : Mem) (w : BitVec 16) : Bool :=
     U4 word access at an odd address (operand, stack, extension word) -- bit 0 of a word address is not defined to be used;
     U5 destination R3 with Ad = 1; U6 single-operand write-back to a constant / immediate;
     U7 flag-setting instruction with destination SR in register mode;
-    U8 PUSH with SP as the operand register; U9 PUSH.B (high byte of the stack word);
+    (U8, PUSH with SP as the operand register, was excluded until the C14 stream was strengthened: the operation text
+    "SP - 2 -> SP, src -> @SP" defines it -- the source is read after the decrement); U9 PUSH.B (high byte of the stack word);
     U10 DADD on non-BCD digits.  (V after DADD is undefined: `step` leaves it unchanged.) -/
 def definedDoc : Unit := ()
 
